@@ -500,42 +500,151 @@ func atomsString(p *Path) string {
 	return strings.Join(as, " && ")
 }
 
-// ruleR14analog: axis that is no longer key-typed (or no longer mapped) must release what it started.
-func ruleR14analog(c *Ctx, dv *dev, rule string) {
+// absPaths enumerates handleABSEvent with value-only diamonds collapsed and nothing inlined.
+func absPaths(c *Ctx, dv *dev) ([]*Path, error) {
 	fn := dv.fn["handleABSEvent"]
 	c.Fn(shortFn(fn))
-	// Structural: every return of handleABSEvent that is not inside the key-emulation case must be
-	// preceded on all paths by AnalogNoteOff for the axis' identifiers or a tracker test.  The analysis
-	// looks for any consult of analogNoteTracker / call of AnalogNoteOff outside the key-emulation region.
-	off := dv.fn["AnalogNoteOff"]
-	keySim, _ := c.P.constString(pkgConfig, "AnalogKeySim")
-	region := caseRegion(fn, dv, keySim)
-	if !c.Require(region != nil, rule, "device.handleABSEvent/case-key", "case config.AnalogKeySim region not found") {
-		return
-	}
-	outside := 0
-	for _, b := range fn.Blocks {
-		if region[b] {
+	paths, err := Enumerate(fn, SymConfig{Prog: c.P, MaxDepth: 1, Collapse: true, CollapsePure: true, OnlyInline: map[*ssa.Function]bool{}})
+	c.Paths += len(paths)
+	return paths, err
+}
+
+// mappingTypeOf: which MappingType constant the path selected ("" none) and which it excluded.
+func mappingTypeOf(p *Path) (string, []string) {
+	sel := ""
+	var negs []string
+	for _, a := range p.Atoms {
+		op, x, y, ok := normAtom(a)
+		if !ok || (op != "==" && op != "!=") {
 			continue
 		}
-		for _, in := range b.Instrs {
-			switch x := in.(type) {
-			case *ssa.Call:
-				if x.Call.StaticCallee() == off {
-					outside++
-				}
-			case *ssa.Lookup:
-				if derivesFromField(x.X, dv.fields["analogNoteTracker"], map[ssa.Value]bool{}) {
-					outside++
+		if _, isC := x.IsConst(); isC {
+			x, y = y, x
+		}
+		s, isS := y.IsStringConst()
+		if !isS {
+			continue
+		}
+		x = x.StripConv()
+		if !((x.Op == "field" || x.Op == "load") && strings.HasSuffix(x.String(), ".MappingType")) {
+			continue
+		}
+		if op == "==" {
+			sel = s
+		} else {
+			negs = append(negs, s)
+		}
+	}
+	return sel, negs
+}
+
+// ruleR14analog: an axis that is no longer key-typed (or no longer mapped) must release what it started.
+func ruleR14analog(c *Ctx, dv *dev, rule string) {
+	fn := dv.fn["handleABSEvent"]
+	paths, err := absPaths(c, dv)
+	if !c.Require(err == nil, rule, "device.handleABSEvent", fmt.Sprint(err)) {
+		return
+	}
+	keySim, _ := c.P.constString(pkgConfig, "AnalogKeySim")
+	on, off := dv.fn["AnalogNoteOn"], dv.fn["AnalogNoteOff"]
+	// identifiers the key-emulation branch uses
+	ids := map[string]bool{}
+	for _, p := range paths {
+		for _, e := range p.Effects {
+			if e.Kind == "call" && (e.Callee == on || e.Callee == off) && len(e.Args) > 1 {
+				if sel, _ := mappingTypeOf(p); sel == keySim {
+					ids[e.Args[1].String()] = true
 				}
 			}
 		}
 	}
-	key := "device.handleABSEvent/non-key-branches-release-tracked-directions"
-	if outside == 0 {
-		c.Bad(rule, key, c.P.Pos(fn.Pos()), "the unmapped-axis return and the cc/pitch_bend/action branches never consult analogNoteTracker: an emulated key held while the mapping is switched to one where the axis is unmapped or not key-typed is never released (until disconnect)")
-	} else {
-		c.OK(rule, key, c.P.Pos(fn.Pos()), fmt.Sprintf("%d tracker consult(s)/release call(s) outside the key-emulation case", outside))
+	if !c.Require(len(ids) == 2, rule, "device.handleABSEvent/identifiers", fmt.Sprintf("expected two direction identifiers in the key-emulation case, found %d", len(ids))) {
+		return
+	}
+	groups := map[string][2]int{}
+	example := map[string]string{}
+	for _, p := range paths {
+		if p.End != "return" {
+			continue
+		}
+		sel, _ := mappingTypeOf(p)
+		if sel == keySim {
+			continue
+		}
+		mapped := "mapped"
+		for _, a := range p.Atoms {
+			cnd, taken := a.Cond, a.Taken
+			for cnd.Op == "unop" {
+				cnd, taken = cnd.Args[0], !taken
+			}
+			if cnd.Op == "lookupok" && strings.Contains(cnd.Args[0].String(), ".Analog[") && !taken {
+				mapped = "unmapped"
+			}
+		}
+		released := map[string]bool{}
+		for _, e := range p.Effects {
+			if e.Kind == "call" && e.Callee == off && len(e.Args) > 1 {
+				released[e.Args[1].String()] = true
+			}
+		}
+		// nothing tracked at all
+		empty := false
+		for _, a := range p.Atoms {
+			op, x, y, ok := normAtom(a)
+			if !ok {
+				continue
+			}
+			if _, isC := x.IsConst(); isC {
+				x, y, op = y, x, flipOp(op)
+			}
+			if x.Op == "len" && dv.isFieldLoad(x.Args[0], "analogNoteTracker") {
+				b := boundsOf([]Atom{a}, x.String())
+				if b.hasHi && b.hi <= 0 {
+					empty = true
+				}
+			}
+			_ = y
+		}
+		for id := range ids {
+			// a tracker miss for this identifier also counts
+			for _, a := range p.Atoms {
+				cnd, taken := a.Cond, a.Taken
+				for cnd.Op == "unop" {
+					cnd, taken = cnd.Args[0], !taken
+				}
+				if cnd.Op == "lookupok" && dv.isFieldLoad(cnd.Args[0], "analogNoteTracker") && cnd.Args[1].String() == id && !taken {
+					released[id] = true
+				}
+			}
+		}
+		okPath := empty
+		if !okPath {
+			okPath = true
+			for id := range ids {
+				if !released[id] {
+					okPath = false
+				}
+			}
+		}
+		k := "device.handleABSEvent/axis-not-emulating-keys[" + mapped + ",type=" + sel + "]"
+		g := groups[k]
+		if okPath {
+			g[0]++
+		} else {
+			g[1]++
+			if example[k] == "" {
+				example[k] = atomsString(p)
+			}
+		}
+		groups[k] = g
+	}
+	for _, k := range sortedKeys(groups) {
+		g := groups[k]
+		if g[1] > 0 {
+			c.Bad(rule, k, c.P.Pos(fn.Pos()), fmt.Sprintf("%d of %d path(s) return without releasing both direction identifiers of the axis (and without having seen analogNoteTracker empty): an emulated key held while the mapping is switched to one where the axis is unmapped or not key-typed keeps sounding until disconnect", g[1], g[0]+g[1]))
+		} else {
+			c.OK(rule, k, c.P.Pos(fn.Pos()), fmt.Sprintf("%d path(s): both direction identifiers released or nothing tracked", g[0]))
+		}
 	}
 }
 
